@@ -18,27 +18,44 @@ pub broadcast proof fn axiom_vparse_bounds(s: Seq<u8>)
     ensures match #[trigger] vparse(s) { Some((v, k)) => v < 0x4000_0000_0000_0000 && 1 <= k <= 8 && k <= s.len(), None => true } {}
 pub trait Buf {
     spec fn bview(&self) -> Seq<u8>;
+    /// the bytes of the underlying container, read or not; no read operation changes them
+    spec fn origin(&self) -> Seq<u8>;
     fn remaining(&self) -> (r: usize) ensures r == self.bview().len();
     fn has_remaining(&self) -> (r: bool) ensures r == (self.bview().len() > 0);
-    fn get_u8(&mut self) -> (r: u8) requires old(self).bview().len() >= 1 ensures final(self).bview() == old(self).bview().skip(1), r == old(self).bview()[0];
-    fn get_u16(&mut self) -> (r: u16) requires old(self).bview().len() >= 2 ensures final(self).bview() == old(self).bview().skip(2);
-    fn get_u32(&mut self) -> (r: u32) requires old(self).bview().len() >= 4 ensures final(self).bview() == old(self).bview().skip(4);
-    fn get_u64(&mut self) -> (r: u64) requires old(self).bview().len() >= 8 ensures final(self).bview() == old(self).bview().skip(8);
-    fn advance(&mut self, cnt: usize) requires cnt <= old(self).bview().len() ensures final(self).bview() == old(self).bview().skip(cnt as int);
+    fn get_u8(&mut self) -> (r: u8) requires old(self).bview().len() >= 1 ensures final(self).origin() == old(self).origin(), final(self).bview() == old(self).bview().skip(1), r == old(self).bview()[0];
+    fn get_u16(&mut self) -> (r: u16) requires old(self).bview().len() >= 2 ensures final(self).origin() == old(self).origin(), final(self).bview() == old(self).bview().skip(2);
+    fn get_u32(&mut self) -> (r: u32) requires old(self).bview().len() >= 4 ensures final(self).origin() == old(self).origin(), final(self).bview() == old(self).bview().skip(4);
+    fn get_u64(&mut self) -> (r: u64) requires old(self).bview().len() >= 8 ensures final(self).origin() == old(self).origin(), final(self).bview() == old(self).bview().skip(8);
+    fn advance(&mut self, cnt: usize) requires cnt <= old(self).bview().len() ensures final(self).origin() == old(self).origin(), final(self).bview() == old(self).bview().skip(cnt as int);
 }
 pub mod io {
     use super::*;
     /// std::io::Cursor over a byte container: what is left to read, and how much has been read
     #[verifier::external_body] #[verifier::reject_recursive_types(T)] pub struct Cursor<T> { inner: T, pos: u64 }
     impl<T> Cursor<T> {
+        /// all bytes of the underlying container, and how many of them have been read
+        pub uninterp spec fn whole(&self) -> Seq<u8>;
+        pub open spec fn pos(&self) -> nat { (self.whole().len() - self.rest().len()) as nat }
+        /// what is left to read is a suffix of the container
+        #[verifier::external_body] pub broadcast proof fn axiom_rest(&self) ensures self.rest().len() <= self.whole().len(), #[trigger] self.rest() == self.whole().skip(self.whole().len() - self.rest().len()) {}
         pub uninterp spec fn rest(&self) -> Seq<u8>;
         /// the underlying container (nothing is known here about its length beyond `position`'s contract)
         #[verifier::external_body] pub fn get_ref(&self) -> (r: &T) { unimplemented!() }
         /// position + what is left = length of the underlying buffer, which fits usize
-        #[verifier::external_body] pub fn position(&self) -> (r: u64) ensures r + self.rest().len() <= usize::MAX { unimplemented!() }
+        #[verifier::external_body] pub fn position(&self) -> (r: u64) ensures r + self.rest().len() <= usize::MAX, r == self.pos() { unimplemented!() }
+    }
+    impl Cursor<BytesMut> {
+        #[verifier::external_body] pub fn new(inner: BytesMut) -> (r: Self) ensures r.whole() == inner@, r.rest() == inner@ { unimplemented!() }
+        #[verifier::external_body] pub fn get_bytes(&self) -> (r: &BytesMut) ensures r@ == self.whole() { unimplemented!() }
+        /// `buf.get_mut().split_off(at)`: the container keeps [0, at), the rest is returned; the read position is not moved
+        #[verifier::external_body] pub fn split_off_inner(&mut self, at: usize) -> (r: BytesMut)
+            requires at <= old(self).whole().len(), old(self).pos() <= at
+            ensures final(self).whole() == old(self).whole().take(at as int), r@ == old(self).whole().skip(at as int), final(self).pos() == old(self).pos()
+        { unimplemented!() }
     }
     impl<T> Buf for Cursor<T> {
         open spec fn bview(&self) -> Seq<u8> { self.rest() }
+        open spec fn origin(&self) -> Seq<u8> { self.whole() }
         #[verifier::external_body] fn remaining(&self) -> (r: usize) { unimplemented!() }
         #[verifier::external_body] fn has_remaining(&self) -> (r: bool) { unimplemented!() }
         #[verifier::external_body] fn get_u8(&mut self) -> (r: u8) { unimplemented!() }
@@ -48,6 +65,10 @@ pub mod io {
         #[verifier::external_body] fn advance(&mut self, cnt: usize) { unimplemented!() }
     }
 }
+#[verifier::external_body] pub struct BytesMut { x: Vec<u8> }
+impl View for BytesMut { type V = Seq<u8>; uninterp spec fn view(&self) -> Seq<u8>; }
+impl AsRef<[u8]> for BytesMut { #[verifier::external_body] fn as_ref(&self) -> &[u8] { unimplemented!() } }
+impl BytesMut { #[verifier::external_body] pub fn len(&self) -> (r: usize) ensures r == self@.len() { unimplemented!() } }
 #[derive(Copy, Clone)] pub struct UnexpectedEnd;
 pub type Result<T> = ::std::result::Result<T, UnexpectedEnd>;
 #[derive(Copy, Clone, PartialEq, Eq)]
@@ -61,7 +82,7 @@ pub trait Codec: Sized {
 //@ extract quinn-proto/src/coding.rs :: trait Codec::fn decode
 //@ ret r
 //@ contract
-        ensures final(buf).bview().len() <= old(buf).bview().len(),
+        ensures final(buf).bview().len() <= old(buf).bview().len(), final(buf).origin() == old(buf).origin(),
             r.is_ok() ==> final(buf).bview().len() < old(buf).bview().len()
 //@ end
 }
@@ -89,16 +110,17 @@ impl Codec for VarInt {
             Ok(v) => vparse(old(r).bview()) == Some((v.0, (old(r).bview().len() - final(r).bview().len()) as nat))
                      && final(r).bview() == old(r).bview().skip(vparse(old(r).bview()).unwrap().1 as int),
             Err(_) => vparse(old(r).bview()).is_none() && final(r).bview().len() <= old(r).bview().len(),
-        }
+        }, final(r).origin() == old(r).origin()
     { unimplemented!() }
 }
 pub(crate) trait BufExt {
     spec fn xv(&self) -> Seq<u8>;
+    spec fn xo(&self) -> Seq<u8>;
 //@ extract quinn-proto/src/coding.rs :: trait BufExt::fn get
 //@ rename-generic T U
 //@ ret r
 //@ contract
-        ensures final(self).xv().len() <= old(self).xv().len(), r.is_ok() ==> final(self).xv().len() < old(self).xv().len()
+        ensures final(self).xv().len() <= old(self).xv().len(), r.is_ok() ==> final(self).xv().len() < old(self).xv().len(), final(self).xo() == old(self).xo()
 //@ end
 //@ extract quinn-proto/src/coding.rs :: trait BufExt::fn get_var
 //@ ret r
@@ -107,11 +129,12 @@ pub(crate) trait BufExt {
             Ok(v) => vparse(old(self).xv()) == Some((v, (old(self).xv().len() - final(self).xv().len()) as nat))
                      && final(self).xv() == old(self).xv().skip(vparse(old(self).xv()).unwrap().1 as int),
             Err(_) => vparse(old(self).xv()).is_none() && final(self).xv().len() <= old(self).xv().len(),
-        }
+        }, final(self).xo() == old(self).xo()
 //@ end
 }
 impl<T: Buf> BufExt for T {
     open spec fn xv(&self) -> Seq<u8> { self.bview() }
+    open spec fn xo(&self) -> Seq<u8> { self.origin() }
 //@ extract quinn-proto/src/coding.rs :: impl BufExt for T::fn get
 //@ end
 //@ extract quinn-proto/src/coding.rs :: impl BufExt for T::fn get_var
@@ -124,14 +147,14 @@ impl ConnectionId {
     #[verifier::external_body]
     pub fn from_buf<B: Buf>(buf: &mut B, len: usize) -> (r: Self)
         requires len <= MAX_CID_SIZE, old(buf).bview().len() >= len
-        ensures final(buf).bview() == old(buf).bview().skip(len as int), r.len == len
+        ensures final(buf).bview() == old(buf).bview().skip(len as int), r.len == len, final(buf).origin() == old(buf).origin()
     { unimplemented!() }
 }
 pub trait ConnectionIdParser { }
 /// `cid_parser.parse(buf)` (takes `&mut dyn Buf`): consumes some prefix of what is left or fails
 #[verifier::external_body]
 pub fn parse_short_cid<P: ConnectionIdParser + ?Sized, B: Buf>(p: &P, buf: &mut B) -> (r: ::std::result::Result<ConnectionId, super::code::PacketDecodeError>)
-    ensures final(buf).bview().len() <= old(buf).bview().len()
+    ensures final(buf).bview().len() <= old(buf).bview().len(), final(buf).origin() == old(buf).origin()
 { unimplemented!() }
 #[verifier::external_trait_specification]
 pub trait ExAsRef<T: core::marker::PointeeSized>: core::marker::PointeeSized { type ExternalTraitSpecificationFor: core::convert::AsRef<T> + core::marker::PointeeSized; fn as_ref(&self) -> &T; }
@@ -140,6 +163,7 @@ pub assume_specification<T: PartialEq> [<[T]>::contains] (s: &[T], x: &T) -> (r:
 pub mod code {
 use super::*; use super::shims::*;
 use std::result::Result;
+use std::cmp::Ordering;
 broadcast use axiom_vparse_bounds;
 //@ extract quinn-proto/src/packet.rs :: const LONG_HEADER_FORM
 //@ end
@@ -183,19 +207,66 @@ impl ConnectionId {
 //@ extract quinn-proto/src/shared.rs :: impl ConnectionId::fn decode_long
 //@ ret r
 //@ contract
-        ensures final(buf).bview().len() <= old(buf).bview().len(), r matches Some(c) ==> c.len <= 20
+        ensures final(buf).bview().len() <= old(buf).bview().len(), r matches Some(c) ==> c.len <= 20, final(buf).origin() == old(buf).origin()
 //@ end
 }
 impl ProtectedHeader {
+    /// RFC 9000 17.2: Initial, 0-RTT and Handshake packets carry a Length field (packet number + payload); Retry, Version Negotiation
+    /// and short-header packets do not and run to the end of the datagram
+    pub open spec fn has_length(&self) -> Option<u64> {
+        match *self {
+            ProtectedHeader::Initial(h) => Some(h.len),
+            ProtectedHeader::Long { ty, dst_cid, src_cid, len, version } => Some(len),
+            _ => None,
+        }
+    }
+//@ extract quinn-proto/src/packet.rs :: impl ProtectedHeader::fn payload_len
+//@ ret r
+//@ contract
+        ensures r == self.has_length()
+//@ end
 //@ extract quinn-proto/src/packet.rs :: impl ProtectedHeader::fn decode
 //@ ret r
 //@ replace cid_parser.parse(buf)? => parse_short_cid(cid_parser, buf)?
 //@ contract
         ensures
             // total for any datagram content and length: no panic, no read past the end (implicit in every obligation of the body);
-            final(buf).rest().len() <= old(buf).rest().len(),
+            final(buf).rest().len() <= old(buf).rest().len(), final(buf).whole() == old(buf).whole(),
+            // a Length field is a varint
+            r matches Ok(h) ==> (h.has_length() matches Some(l) ==> l < 0x4000_0000_0000_0000),
             // an Initial header's token range is well formed and was skipped inside the datagram
             r matches Ok(ProtectedHeader::Initial(h)) ==> h.token_pos.start <= h.token_pos.end && h.token_pos.end - h.token_pos.start <= old(buf).rest().len(),
+//@ end
+}
+//@ extract quinn-proto/src/packet.rs :: struct PartialDecode
+//@ derive
+//@ end
+impl PartialDecode {
+//@ extract quinn-proto/src/packet.rs :: impl PartialDecode::fn new
+//@ ret r
+//@ replace buf.get_ref().len() => buf.get_bytes().len()
+//@ replace buf.get_mut().split_off( => buf.split_off_inner(
+//@ closure 0 : u64 -> (n: usize)
+                requires buf.pos() + len <= u64::MAX
+                ensures n == (buf.pos() + len) as usize
+//@ at-start
+        broadcast use io::Cursor::axiom_rest;
+//@ contract
+        // (a UDP datagram; the bound only keeps `position + Length` inside u64)
+        requires bytes@.len() < 0x4000_0000_0000_0000
+        ensures match r {
+            // coalesced packets are split exactly where the Length field says: the packet is the header plus `Length` bytes, the
+            // rest of the datagram is handed back untouched; packets without a Length field take the whole datagram
+            Ok((p, rest)) => {
+                let hdr_end = p.buf.pos();
+                let plen = match p.plain_header.has_length() { Some(l) => hdr_end + l, None => bytes@.len() as int };
+                &&& plen <= bytes@.len()
+                &&& p.buf.whole() == bytes@.take(plen)
+                &&& (rest matches Some(t) ==> plen < bytes@.len() && t@ == bytes@.skip(plen))
+                &&& (rest is None ==> plen == bytes@.len())
+            },
+            Err(_) => true,
+        }
 //@ end
 }
 }
